@@ -498,6 +498,12 @@ class Normalizer:
                                         al.asname = new_name
                                     al.name = old_name
             d.node.name = old_name
+            # same-named sibling definitions (one per branch of an if/else) are the same function
+            for other in self.defs[rel]:
+                if other is not d and other.owner is d.owner and other.cls is d.cls and other.name == new_name:
+                    other.node.name = old_name
+                    other.qual = other.qual[: len(other.qual) - len(new_name)] + old_name
+                    self.canonical[id(other)] = self.canonical.get(id(d), other.qual)
             d.qual = d.qual[: len(d.qual) - len(new_name)] + old_name
             self.stats['renamed_back'] = self.stats.get('renamed_back', 0) + 1
 
